@@ -37,6 +37,16 @@ def build_frame(kind, direction, ssn, rsn):
         from dlms_cosem.crc import CRCCCITT
         raw[-3:-1] = CRCCCITT().calculate_for(bytes(raw[1:-3]))
         return RawFrame(bytes(raw))
+    if kind.startswith("un") or kind.startswith("uh"):
+        # any other unnumbered frame of HDLC (DM 0x0F/0x1F, FRMR 0x87/0x97, ...): a UA with its control byte replaced.  Not a UA.
+        # ("un..": header + control + FCS; "uh..": with a header check sequence as well, the way the library writes a UA)
+        from harness.props.c12 import x25_ref
+        head = dst.to_bytes() + src.to_bytes() + bytes([int(kind[2:], 16)])
+        n = 2 + len(head) + 2 + (2 if kind.startswith("uh") else 0)
+        body = bytes([0xA0 | n >> 8, n & 0xFF]) + head
+        if kind.startswith("uh"):
+            body += x25_ref(body)
+        return RawFrame(b"\x7e" + body + x25_ref(body) + b"\x7e")
     if kind == "ui":
         return frames.UnnumberedInformationFrame(dst, src, b"\x01\x02")
     raise ValueError(kind)
@@ -50,7 +60,10 @@ class RawFrame:
         return self.b
 
 
-LINE_KIND = {"i0": "i", "iseg": "i", "rnr": "ui", "rej": "ui", "srej": "ui"}
+# unnumbered control bytes (low bits 11) other than SNRM 83/93, DISC 43/53, UA 63/73, UI 03/13
+OTHER_UNNUMBERED = ["un%02x" % c for c in range(256) if c & 3 == 3 and c & 0xEF not in (0x83, 0x43, 0x63, 0x03)]
+OTHER_UNNUMBERED += [k.replace("un", "uh") for k in OTHER_UNNUMBERED]
+LINE_KIND = {"i0": "i", "iseg": "i", "rnr": "ui", "rej": "ui", "srej": "ui", **{k: "ui" for k in OTHER_UNNUMBERED}}
 
 
 def run_history(ops):
@@ -183,6 +196,10 @@ class C11(fw.Prop):
                             probes.append((d, "rr", 0, r))
                         for k in ("rnr", "rej", "srej"):
                             probes.append((d, k, 0, ns))
+                        # DM, FRMR and every other unnumbered control byte: not a UA (all of them once per phase, the two DM
+                        # and FRMR forms everywhere)
+                        for k in (OTHER_UNNUMBERED if (ns, nr) in ((0, 0), (7, 3)) or deep else ["un0f", "un1f", "un87", "un97", "uh1f", "uh97"]):
+                            probes.append((d, k, 0, 0))
                 # each probe is followed by a legal continuation so that a refused step that
                 # secretly changed something is exposed
                 for p in probes:
